@@ -83,7 +83,7 @@ class Codecs:
             encoding = 'ASCII'
         with open(path, 'rb') as file:
             contents = file.read()
-        contents = contents.decode(encoding)
+        contents = encodings.decode(contents, encoding)
         pending_comments = []
         empty = True
         for line in self._iterlines(contents):
@@ -154,7 +154,7 @@ def polib_unescape(s):
             parser_stack_frame = inspect.stack()[2][0]
             parser = parser_stack_frame.f_locals['self']
             encoding = parser.instance.encoding
-            return result.decode(encoding)  # pylint: disable=no-member
+            return encodings.decode(result, encoding)
     return _escapes_re.sub(unescape, s)
 
 @register_patch
